@@ -214,9 +214,12 @@ def c18(tier):
     hcfgs = sets.GROWTH_HUGE + (sets.GROWTH_HUGE_THOROUGH if tier == "thorough" else [])
     c2, v2, i2 = sets.run_engine("C18", tier, hcfgs, 52, 52, crash_owners=("C18",), min_chunk=3)
     cov, viols, inc = sets.merge_cov(cov, c2), viols + v2, inc + i2
+    # growth steps met in the random histories of the vector engine (any operation that makes a vector allocate a larger buffer without an explicit request)
+    c3, v3, i3 = vec.run("C18", tier, hist_quick=160, hist_thorough=1600)
+    cov, viols, inc = sets.merge_cov(cov, c3), viols + v3, inc + i3
     cov["rule"] = ("append sweeps of n one-element appends (n<=3000 quick, 100000 thorough, clamped by the size_type) from 5 start states x 5 append methods per "
                    "configuration, with allocator-call and relocation counters judged at every step (2*ceil(log2 n)+4 calls, each growth step >= ceil(1.5*old) "
-                   "unless clamped, 4n+8 relocations), plus a reserve/shrink_to_fit grid, plus append sweeps on full vectors of 0.7e9 .. 4.29e9 one-byte elements "
+                   "unless clamped, 4n+8 relocations), plus the growth steps observed in random histories of the vector engine (every allocation of a larger buffer without an explicit reserve / swap2 adjustment must be >= 1.5 x old), plus a reserve/shrink_to_fit grid, plus append sweeps on full vectors of 0.7e9 .. 4.29e9 one-byte elements "
                    "(32-bit unsigned / signed and 64-bit size types; the elements live in a lazily committed mapping) around the points where 3c and 1.5c leave 32 bits; distinct cell = (configuration, start state, method) or (operation, state class)")
     return core.finish("C18", tier, "exploration", cov, viols, inc, t0, ASSUME_SAN, min_evals=1000)
 
